@@ -1,6 +1,101 @@
 import SigpyVerif.Model.Py
 import SigpyVerif.Model.Proto
+import SigpyVerif.Model.C17
 namespace SigpyVerif.Drv.C17
+open SigpyVerif SigpyVerif.Proto SigpyVerif.C17
+
+/-- Gaussian rationals; `none` = an inexact square root was needed (the request is outside the exact domain) -/
+abbrev CR := Option (Rat × Rat)
+
+def isSquareNat (n : Nat) : Bool := n.sqrt * n.sqrt == n
+def ratSqrt? (q : Rat) : Option Rat :=
+  if q.num < 0 then none
+  else if isSquareNat q.num.toNat && isSquareNat q.den then some ((q.num.toNat.sqrt : Rat) / (q.den.sqrt : Rat))
+  else none
+
+def lift2 (f : Rat × Rat → Rat × Rat → Rat × Rat) (a b : CR) : CR := do
+  let x ← a; let y ← b; pure (f x y)
+
+/-- the scalar operations of the code over exact Gaussian rationals -/
+def ops : COps CR where
+  zero := some (0, 0)
+  add := lift2 fun a b => (a.1 + b.1, a.2 + b.2)
+  mul := lift2 fun a b => (a.1 * b.1 - a.2 * b.2, a.1 * b.2 + a.2 * b.1)
+  conj := fun a => a.map fun z => (z.1, -z.2)
+  abs := fun a => do
+    let z ← a
+    let r ← ratSqrt? (z.1 * z.1 + z.2 * z.2)
+    pure (r, 0)
+  sqrt := fun a => do
+    let z ← a
+    if z.2 ≠ 0 then none
+    let r ← ratSqrt? z.1
+    pure (r, 0)
+  div := fun a b => do
+    let x ← a; let y ← b
+    let n := y.1 * y.1 + y.2 * y.2
+    if n == 0 then none
+    pure ((x.1 * y.1 + x.2 * y.2) / n, (x.2 * y.1 - x.1 * y.2) / n)
+  gt := fun a b => match a, b with
+    | some x, some y => decide (x.1 > y.1)
+    | _, _ => false
+  ofBool := fun b => some (if b then 1 else 0, 0)
+
+def chunk {β} (n : Nat) : Nat → List β → List (List β)
+  | 0, _ => []
+  | rows + 1, l => l.take n :: chunk n rows (l.drop n)
+
+def fmtList (l : List CR) : Option String := do
+  let v ← l.mapM id
+  pure (fmtCRatList v)
+
+def getC (toks : List String) (k : String) : Option (List CR) :=
+  ((kv toks k).bind parseCRatList?).map fun l => l.map some
+
 /-- protocol handler for property C17 (tokens after the property id). -/
-def handle (_toks : List String) : String := "err bad-op"
+def handle (toks : List String) : String :=
+  match toks.head? with
+  | some "normalize" =>
+    match getC toks "x" with
+    | some x => match fmtList [normalize ops x] with
+      | some s => s!"ok {s}"
+      | none => "err inexact"
+    | none => "err bad-op"
+  | some "step" =>
+    match ((kv toks "n").bind parseInt?).map Int.toNat, getC toks "G", getC toks "x" with
+    | some n, some G, some x =>
+      if G.length ≠ n * n ∨ x.length ≠ n then "err size" else
+      let (x', e) := powerStep ops (chunk n n G) x
+      match fmtList [e], fmtList x' with
+      | some se, some sx => s!"ok {se} | {sx}"
+      | _, _ => "err inexact"
+    | _, _, _ => "err bad-op"
+  | some "output" =>
+    match (kv toks "eig").bind parseRat?, (kv toks "crop").bind parseRat?, getC toks "m" with
+    | some eig, some crop, some m =>
+      match fmtList (output ops (Gen.espiritKeeps eig crop) m) with
+      | some s => s!"ok {s}"
+      | none => "err inexact"
+    | _, _, _ => "err bad-op"
+  | some "gram" =>
+    -- vs: nk kernels × nc coils
+    match ((kv toks "nc").bind parseInt?).map Int.toNat, ((kv toks "nk").bind parseInt?).map Int.toNat,
+          (kv toks "N").bind parseInt?, (kv toks "kw").bind parseInt?, ((kv toks "d").bind parseInt?).map Int.toNat, getC toks "v" with
+    | some nc, some nk, some N, some kw, some d, some v =>
+      if v.length ≠ nk * nc then "err size" else
+      let sc := Gen.espiritScale N kw d
+      match fmtList (gram ops (some (sc, 0)) (chunk nc nk v) nc).flatten with
+      | some s => s!"ok {s}"
+      | none => "err inexact"
+    | _, _, _, _, _, _ => "err bad-op"
+  | some "calib" =>
+    match (kv toks "nc").bind parseInt?, (kv toks "cw").bind parseInt?, (kv toks "kw").bind parseInt?,
+          ((kv toks "d").bind parseInt?).map Int.toNat, (kv toks "x").bind parseIntList? with
+    | some nc, some cw, some kw, some d, some x =>
+      if x.length ≠ (nc * cw ^ d).toNat then "err size" else
+      match calibMat nc cw kw d x.toArray with
+      | some (sh, y) => s!"ok {fmtIntList sh} | {fmtIntList y.toList}"
+      | none => "err index"
+    | _, _, _, _, _ => "err bad-op"
+  | _ => "err bad-op"
 end SigpyVerif.Drv.C17
